@@ -190,6 +190,12 @@ def _cases() -> List[Tuple[str, str, tuple, dict, Any]]:
         (O[list[D.date]], "typing.Optional[list[datetime.date]]"),
         (L[1, "a"], "typing.Literal[1, 'a']"), (L[_Color.RED], f"typing.Literal[{mod}._Color.RED]"), (L[None, b"x", True], "typing.Literal[None, b'x', True]"),
         (A[int, "x"], "int"), (A[list[int], "x"], "list[int]"),
+        # a type's name is also an identity key (method names of generic specialisations are digests of it) and is spliced into
+        # generated source: Literal values must be rendered completely and as valid literals
+        (L["https://example.org/api/v1/a-rather-long-endpoint-name"], "typing.Literal['https://example.org/api/v1/a-rather-long-endpoint-name']"),
+        (L["it's", 'say "hi"', "back\\slash"], "typing.Literal[\"it's\", 'say \"hi\"', 'back\\\\slash']"),
+        (L[b"0123456789012345678901234567890123456789"], "typing.Literal[b'0123456789012345678901234567890123456789']"),
+        (L[12345678901234567890123456789012345678901234567890], "typing.Literal[12345678901234567890123456789012345678901234567890]"),
         (T, "typing.Any"), (TB, "int"), (TC, "typing.Union[int, str]"), (NT, f"{mod}.NT"),
         (tuple[int, ...], "tuple[int, ...]"), (typing.Tuple[int, str], "typing.Tuple[int, str]"), (tuple[()], "tuple[()]"), (typing.Tuple[()], "typing.Tuple[()]"),
         (typing.Unpack[tuple[int, ...]], "*tuple[int, ...]"), (tuple[int, typing.Unpack[tuple[str, ...]]], "tuple[int, *tuple[str, ...]]"),
@@ -318,3 +324,93 @@ def reference_cases(repo: Repo, rep: Report, rule: str, only: Tuple[str, ...] = 
     rep.analysed["type_helper_reference_cases"] = n
     if not only:
         rep.floor(rule, 100)
+
+
+# --------------------------------------------------------------------------- methods of CodeBuilder on a stub ``self``
+def _fa():
+    return dataclasses.field(default_factory=list)
+
+
+@dataclasses.dataclass
+class _DA:
+    x: list = _fa()
+
+
+@dataclasses.dataclass
+class _DB:
+    y: list = _fa()
+    k: int = dataclasses.field(default=0, init=False)
+
+
+class _DC(_DA, _DB):  # as the mixin's __init_subclass__ sees it: before @dataclass has processed the class
+    pass
+
+
+class _DC2(_DA, _DB):
+    z: int = dataclasses.field(default=1)
+
+
+class _DD(_DA):
+    x: list  # bare re-annotation, no value of its own
+
+
+@dataclasses.dataclass
+class _DE(_DA):  # a finished dataclass (codec / schema route): own Field only in __dataclass_fields__
+    w: int = 0
+
+
+@dataclasses.dataclass
+class _DX:
+    x: int = 1
+
+
+@dataclasses.dataclass
+class _DXB(_DX):
+    x: int = 2
+
+
+@dataclasses.dataclass
+class _DXC(_DX):
+    pass
+
+
+class _DXD(_DXB, _DXC):
+    pass
+
+
+def _builder_stub(cls):
+    import types as _t
+    own = dict(cls.__dict__.get("__annotations__", {}))
+    return _t.SimpleNamespace(cls=cls, namespace=cls.__dict__, _CodeBuilder__get_field_types=lambda recursive=True, include_extras=False: dict(own))
+
+
+def builder_method_cases(repo: Repo, rep: Report, rule: str) -> None:
+    """CodeBuilder.dataclass_fields evaluated on classes with multiple inheritance, own Fields, a bare re-annotation, a
+    finished dataclass and a diamond.  Reference = the rule `dataclasses` itself applies: walk the MRO from the root to
+    the nearest base, every dataclass ancestor contributes *its* fields, later (nearer) ones win; then the class's own
+    annotations: a Field of its own replaces, a bare re-annotation drops the inherited Field."""
+    from .srcmodel import M_BUILDER
+
+    te = TypeEval(repo)
+    F = "__dataclass_fields__"
+    f = te.method(M_BUILDER, "CodeBuilder", "dataclass_fields")
+    construct = f"{M_BUILDER}::CodeBuilder.dataclass_fields"
+    cases = [
+        ("C(A, B) two dataclass bases", _DC, {"x": getattr(_DA, F)["x"], "y": getattr(_DB, F)["y"], "k": getattr(_DB, F)["k"]}),
+        ("C2(A, B) + own Field", _DC2, {"x": getattr(_DA, F)["x"], "y": getattr(_DB, F)["y"], "k": getattr(_DB, F)["k"], "z": _DC2.__dict__["z"]}),
+        ("D(A) bare re-annotation", _DD, {}),
+        ("E(A) finished dataclass", _DE, {"x": getattr(_DA, F)["x"], "w": getattr(_DE, F)["w"]}),
+        ("diamond D(B(X), C(X))", _DXD, {"x": getattr(_DXB, F)["x"]}),
+        ("A itself (finished, no dataclass ancestor)", _DA, {"x": getattr(_DA, F)["x"]}),
+    ]
+    for label, cls, want in cases:
+        got = evaluate(te, f, _builder_stub(cls))
+        inst = f"dataclass_fields of {label}"
+        if got[0] == "unsupported":
+            rep.undecide(rule, f"{inst}: {got[1]}")
+        elif got[0] == "value" and isinstance(got[1], dict) and set(got[1]) == set(want) and all(got[1][k] is want[k] for k in want):
+            rep.ok(rule, inst, {"fields": sorted(want)})
+        else:
+            shown = {k: ("Field of " + next((c.__name__ for c in cls.__mro__ if getattr(c, F, {}).get(k) is v or c.__dict__.get(k) is v), "?")) for k, v in got[1].items()} if got[0] == "value" and isinstance(got[1], dict) else got
+            rep.violation(rule, construct, inst, f"evaluates to {_show(shown)}; dataclasses' own rule gives the fields {sorted(want)} with the Field object of the nearest declaring ancestor", actual=_show(shown), reference=str(sorted(want)))
+    rep.floor(rule, 5)
